@@ -408,8 +408,10 @@ def report_runtime(ctx, cases, fails):
         if axis == HASH_AXIS:
             qual = "str-keys-only" if all(keyclass(c) == "str" for c in fc) else "incl-int-keys"
             exhibited.setdefault((comp, "hash"), items[0][1])
-        elif axis in (CARRY_AXIS, "reused-object-on-second-problem-differs", "mutates-the-problem-object",
-                      "differs-when-problem-object-is-shared-or-reused"):
+        elif axis in ("mutates-the-problem-object", "differs-when-problem-object-is-shared-or-reused"):
+            qual = "seed0-only" if all(c["seed"] == 0 for c in fc) else "any-seed"
+            exhibited.setdefault((comp, "alias"), items[0][1])
+        elif axis in (CARRY_AXIS, "reused-object-on-second-problem-differs"):
             qual = "seed0-only" if all(c["seed"] == 0 for c in fc) else "any-seed"
             exhibited.setdefault((comp, "carry"), items[0][1])
         else:
@@ -449,13 +451,16 @@ def static_half(ctx, exhibited, only=None):
         if allpriv:
             discharged += 1
             continue
+        persists = any(o["kind"] == "KPersistentAcrossCalls" for o in off)
+        aliased = any(o["kind"] == "KShufflesCallerObject" for o in off)
         for flag, tag, axis in ((glob, "global-generator-used", "gen"), (hsh, "hash-order-dependence", "hash"),
-                                (carried, "generator-persists-across-calls", "carry")):
+                                (carried and persists, "generator-persists-across-calls", "carry"),
+                                (carried and aliased, "shuffles-callers-object-in-place", "alias")):
             if not flag:
                 continue
             ex = exhibited.get((c, axis))
             kinds = {"gen": ("KGlobal", "KGlobalIfSeedFalsy", "KUnseeded"), "hash": ("KHashOrder", "KHash", "KHashDerivedSeed"),
-                     "carry": ("KPersistentAcrossCalls",)}[axis]
+                     "carry": ("KPersistentAcrossCalls",), "alias": ("KShufflesCallerObject",)}[axis]
             detail = {"case": ex["case"] if ex else None,
                       "obligation": 'forallb site_private (component_sites "%s") = true  is FALSE on the regenerated table' % c,
                       "offending_sites": [o for o in off if o["kind"] in kinds],
